@@ -169,6 +169,36 @@ func targets() []*target {
 			},
 			params: []string{"(m_stringToLevel : list (bytes * Z))", "(lvl : bytes)", "(tr_ : list lvl_event)"},
 			result: "Z * option unit * list lvl_event", final: "(0, None, tr_)"},
+
+		// ---- attribute assembly (C07) ----
+		// a *Entry is seen as the chain of own attribute lists from it up to the root (nil = the empty
+		// chain): e.attrs / e.owner are the head / the tail.  *kvps is threaded through as the binder
+		// kvps.  The recursive call is the parameter rec_ (open recursion: the theorem is the induction step).
+		{pkg: slogPkg, recv: "Entry", fn: "walkParentAttrs", coq: "walk_parent_attrs", file: "Assembly", strict: true, fallback: "CollectRef.walk_parent_attrs_ref",
+			comment: "(returns *kvps)", effects: []string{"kvps"},
+			tymap:   map[string]string{"*Entry": "list (list attr)", "Attrs": "list attr", "*Attrs": "list attr"},
+			nilTest: map[string]string{"list (list attr)": "chain_is_nil"},
+			fields:  map[string]string{"attrs": "chain_attrs", "owner": "chain_owner"}, globals: []string{"chain_attrs", "chain_owner"},
+			calls: map[string]callSpec{
+				"IsAnyBitsSet":           {pure: "negb (Z.land g_flags %0 =? 0)"},
+				"*Entry.walkParentAttrs": {state: "rec_ %2 %3"},
+			},
+			params: []string{"(rec_ : list (list attr) -> list attr -> list attr)", "(g_flags : Z)", "(ctx : unit)", "(lvl : Z)", "(e : list (list attr))", "(kvps : list attr)"},
+			result: "list attr", final: "kvps"},
+		{pkg: slogPkg, recv: "Entry", fn: "collectArgs", coq: "collect_args", file: "Assembly", strict: true, fallback: "CollectRef.collect_args_ref",
+			comment: "(returns *kvps; s is the logger's chain, s_attrs its own attributes)", effects: []string{"kvps"},
+			tymap: map[string]string{"*Entry": "list (list attr)", "Attrs": "list attr", "*Attrs": "list attr", "[]any": "list attr"},
+			calls: map[string]callSpec{
+				"IsAnyBitsSet":           {pure: "negb (Z.land g_flags %0 =? 0)"},
+				"*Entry.ctxKeysWanted":   {pure: "s_ctxKeysWanted"},
+				"*Entry.fromCtx":         {state: "f_fromCtx %0 %1"},
+				"*Entry.walkParentAttrs": {state: "f_walk %2 %3"},
+				"argsToAttrs":            {state: "f_argsToAttrs %0 %1", spread: true},
+			},
+			params: []string{"(f_fromCtx : unit -> list attr -> list attr)", "(f_walk : list (list attr) -> list attr -> list attr)",
+				"(f_argsToAttrs : list attr -> list attr -> list attr)", "(g_flags : Z)", "(s_ctxKeysWanted : bool)", "(s : list (list attr))", "(s_attrs : list attr)",
+				"(ctx : unit)", "(kvps : list attr)", "(roughSize : Z)", "(lvl : Z)", "(args : list attr)"},
+			result: "list attr", final: "kvps"},
 	}
 }
 
@@ -184,6 +214,7 @@ var genFiles = [][2]string{
 	{"Decisions", "Require Import Verif.Model.Base Verif.Model.Decision Verif.Model.DecisionRef Verif.Model.Level."},
 	{"Routing", "Require Import Verif.Model.Base Verif.Model.Decision Verif.Model.GoSem Verif.Model.Writers Verif.Model.GenRef."},
 	{"Delivery", "Require Import Verif.Model.Base Verif.Model.Decision Verif.Model.GoSem Verif.Model.Writers Verif.Model.GenRef."},
+	{"Assembly", "Require Import Verif.Model.Base Verif.Model.Decision Verif.Model.GoSem Verif.Model.Attrs Verif.Model.Collect Verif.Model.CollectRef."},
 	{"LevelNames", "Require Import Verif.Model.Base Verif.Model.Decision Verif.Model.Dec Verif.Model.GoSem Verif.Model.LevelRef."},
 }
 
